@@ -132,7 +132,7 @@ class Check:
                 "configurations": self.configs,
                 "suppressions": self.suppressions,
                 "notes": self.notes[:60],
-                "known_findings_reported": [h for _v, h in self.known_hits],
+                "known_findings_reported": sorted({h for _v, h in self.known_hits}),
                 "exhaustive": True,
             },
             "assumptions": self.assumptions,
@@ -141,7 +141,7 @@ class Check:
         }
         with open(os.path.join(VERIF, "evidence", "%s.json" % self.pid), "w") as f:
             json.dump(ev, f, indent=1)
-        for v, hit in self.known_hits:
+        for hit in sorted({h for _v, h in self.known_hits}):
             print("KNOWN-FINDING: property=%s %s" % (self.pid, hit))
         print("%s [%s]: %d obligations, %d discharged, %d violation(s), %d known finding(s), %.1fs"
               % (self.pid, self.tier, self.obligations, self.discharged, len(new_v), len(self.known_hits), wall))
